@@ -638,3 +638,112 @@ Proof. vm_compute. repeat split. Qed.
 Lemma fuel_nonvacuous :
   (length [12; 0; 0; 9; 0; 4; 1; 2; 3; 4] < 11)%nat /\ 4 <= 34.
 Proof. split; [vm_compute; lia|lia]. Qed.
+
+(* ---------------- bounded worker pool on the receive path ---------------- *)
+Lemma pool_run_cons b cap s e r :
+  pool_run b cap s (e :: r) =
+  (fst (pool_run b cap (fst (pool_step b cap s e)) r),
+   snd (pool_step b cap s e) :: snd (pool_run b cap (fst (pool_step b cap s e)) r)).
+Proof.
+  cbn [pool_run]. destruct (pool_step b cap s e) as [s1 o]. cbn [fst snd].
+  destruct (pool_run b cap s1 r) as [s2 os]. reflexivity.
+Qed.
+
+(* with the non-blocking acquire no handler call ever blocks, whatever the history *)
+Lemma pool_never_blocks cap : forall evs s, ps_stuck s = false ->
+  ps_stuck (fst (pool_run false cap s evs)) = false /\ ~ In Blocked (snd (pool_run false cap s evs)).
+Proof.
+  induction evs as [|e r IH]; intros s Hs; [cbn; auto|].
+  rewrite pool_run_cons. cbn [fst snd].
+  assert (H1 : ps_stuck (fst (pool_step false cap s e)) = false /\ snd (pool_step false cap s e) <> Blocked).
+  { unfold pool_step. rewrite Hs. destruct e.
+    - destruct (ps_busy s <? cap); cbn; split; auto; discriminate.
+    - destruct (0 <? ps_busy s); cbn; split; auto; discriminate. }
+  destruct H1 as [H1 H2]. destruct (IH _ H1) as [H3 H4]. split; [exact H3|].
+  intros [H|H]; [exact (H2 H)|exact (H4 H)].
+Qed.
+
+(* the number of busy workers (goroutines) never exceeds the pool size *)
+Lemma pool_bounded b cap : forall evs s, ps_busy s <= cap -> ps_busy (fst (pool_run b cap s evs)) <= cap.
+Proof.
+  induction evs as [|e r IH]; intros s Hs; [exact Hs|].
+  rewrite pool_run_cons. cbn [fst]. apply IH.
+  unfold pool_step. destruct (ps_stuck s); [exact Hs|]. destruct e.
+  - destruct (ps_busy s <? cap) eqn:E; cbn [fst ps_busy]; [lia|]. destruct b; exact Hs.
+  - destruct (0 <? ps_busy s) eqn:E; cbn [fst ps_busy]; lia.
+Qed.
+
+Lemma count_out_cons o x l :
+  count_out o (x :: l) = (if match x, o with
+                             | Dispatched, Dispatched | Dropped, Dropped | Blocked, Blocked
+                             | Finished, Finished | Idle, Idle => true | _, _ => false end then 1 else 0)
+                         + count_out o l.
+Proof.
+  unfold count_out. cbn [filter].
+  destruct x, o; cbn [length]; lia.
+Qed.
+
+Lemma arrivals_spec cap : forall k b, b <= cap ->
+  fst (pool_run false cap (mkPS b false) (repeat Arrive k)) = mkPS (N.min cap (b + N.of_nat k)) false /\
+  count_out Dispatched (snd (pool_run false cap (mkPS b false) (repeat Arrive k))) = N.min (N.of_nat k) (cap - b) /\
+  count_out Blocked (snd (pool_run false cap (mkPS b false) (repeat Arrive k))) = 0.
+Proof.
+  induction k as [|k IH]; intros b Hb.
+  - cbn. repeat split; try reflexivity; [f_equal; lia|lia].
+  - cbn [repeat]. rewrite pool_run_cons.
+    assert (St : pool_step false cap (mkPS b false) Arrive =
+                 if b <? cap then (mkPS (b + 1) false, Dispatched) else (mkPS b false, Dropped)) by reflexivity.
+    rewrite St. destruct (b <? cap) eqn:E; cbn [fst snd].
+    + destruct (IH (b + 1)) as (H1 & H2 & H3); [lia|].
+      rewrite H1. rewrite !count_out_cons, H2, H3. split; [f_equal; lia|split; lia].
+    + destruct (IH b Hb) as (H1 & H2 & H3).
+      rewrite H1. rewrite !count_out_cons, H2, H3. split; [f_equal; lia|split; lia].
+Qed.
+Lemma finishes_spec cap : forall k b,
+  fst (pool_run false cap (mkPS b false) (repeat Finish k)) = mkPS (b - N.of_nat k) false.
+Proof.
+  induction k as [|k IH]; intros b.
+  - cbn. f_equal. lia.
+  - cbn [repeat]. rewrite pool_run_cons.
+    assert (St : pool_step false cap (mkPS b false) Finish =
+                 if 0 <? b then (mkPS (b - 1) false, Finished) else (mkPS b false, Idle)) by reflexivity.
+    rewrite St. destruct (0 <? b) eqn:E; cbn [fst]; rewrite IH; f_equal; lia.
+Qed.
+(* the harness scenario: n frames against a pool of cap held workers: all n handler calls return, min n cap are
+   dispatched, the session is not wedged, and the pool drains once the workers are released *)
+Lemma pool_burst_spec cap n : pool_burst cap n = [TN n; TN (N.min n cap); TN 1; TN 1].
+Proof.
+  unfold pool_burst.
+  destruct (arrivals_spec cap (N.to_nat n) 0) as (H1 & H2 & H3); [lia|].
+  destruct (pool_run false cap pool0 (repeat Arrive (N.to_nat n))) as [s1 os1] eqn:E1.
+  unfold pool0 in E1. rewrite E1 in H1, H2, H3. cbn [fst snd] in H1, H2, H3.
+  rewrite H2, H3.
+  pose proof (finishes_spec cap (N.to_nat (N.min (N.of_nat (N.to_nat n)) (cap - 0))) (ps_busy s1)) as F.
+  subst s1. cbn [ps_busy ps_stuck] in *.
+  destruct (pool_run false cap (mkPS (N.min cap (0 + N.of_nat (N.to_nat n))) false)
+              (repeat Finish (N.to_nat (N.min (N.of_nat (N.to_nat n)) (cap - 0))))) as [s2 os2] eqn:E2.
+  cbn [fst] in F. subst s2. cbn [ps_busy negb tbool].
+  replace (n - 0) with n by lia.
+  replace (N.min (N.of_nat (N.to_nat n)) (cap - 0)) with (N.min n cap) by lia.
+  replace (N.min cap (0 + N.of_nat (N.to_nat n)) - N.of_nat (N.to_nat (N.min n cap)) =? 0) with true
+    by (symmetry; apply N.eqb_eq; lia).
+  reflexivity.
+Qed.
+
+(* what "wait instead of drop" would do: the 17th frame against 16 held workers blocks under the session lock,
+   and from then on nothing makes progress any more *)
+Lemma pool_blocking_wedges :
+  ps_stuck (fst (pool_run true 16 pool0 (repeat Arrive 17))) = true /\
+  In Blocked (snd (pool_run true 16 pool0 (repeat Arrive 17))).
+Proof. vm_compute. split; [reflexivity|]. repeat (try (left; reflexivity); right). Qed.
+Lemma pool_stuck_forever b cap : forall evs s, ps_stuck s = true ->
+  fst (pool_run b cap s evs) = s /\ Forall (fun o => o = Blocked) (snd (pool_run b cap s evs)).
+Proof.
+  induction evs as [|e r IH]; intros s Hs; [cbn; auto|].
+  rewrite pool_run_cons. unfold pool_step. rewrite Hs. cbn [fst snd].
+  destruct (IH s Hs) as [H1 H2]. split; [exact H1|constructor; [reflexivity|exact H2]].
+Qed.
+Lemma pool_nonvacuous :
+  ps_stuck pool0 = false /\ ps_busy pool0 <= 16 /\
+  ps_stuck (fst (pool_run true 16 pool0 (repeat Arrive 17))) = true.
+Proof. vm_compute. repeat split; congruence. Qed.
